@@ -106,6 +106,13 @@ func (fi *FuncInfo) topRef(ptr ssa.Value) (stack ssa.Value, ok bool) {
 			return nil, false
 		}
 		ia, _ = ld.X.(*ssa.IndexAddr)
+		if ia == nil {
+			// a copy of a copy (the item handed on to a helper's parameter): follow, as long as the
+			// intermediate copy is not modified in between (single store each)
+			if src, isAlloc := ld.X.(*ssa.Alloc); isAlloc && src != x {
+				return fi.topRef(src)
+			}
+		}
 	}
 	if ia == nil {
 		return nil, false
@@ -236,6 +243,34 @@ func (c *Ctx) segScan() *segScan {
 	}
 	s.cbM = stripConv(s.cb.Call.Args[0])
 	s.topPtr, s.nF = ptr, nf
+	// a copy of the copy (item handed to a helper's parameter): the rules talk about the first copy
+	for {
+		al, isAl := s.topPtr.(*ssa.Alloc)
+		if !isAl {
+			break
+		}
+		var st *ssa.Store
+		nst := 0
+		for _, ref := range *al.Referrers() {
+			if x, isSt := ref.(*ssa.Store); isSt && x.Addr == ssa.Value(al) {
+				st = x
+				nst++
+			}
+		}
+		if nst != 1 {
+			break
+		}
+		ld, isLd := st.Val.(*ssa.UnOp)
+		if !isLd || ld.Op != token.MUL {
+			break
+		}
+		src, isAlloc := ld.X.(*ssa.Alloc)
+		if !isAlloc || src == al {
+			break
+		}
+		s.topPtr = src
+	}
+	ptr = s.topPtr
 	stack, ok := s.fi.topRef(ptr)
 	if !ok {
 		s.err = "the item passed to the callback is not the last element of a slice (stack top)"
@@ -250,6 +285,11 @@ func (c *Ctx) segScan() *segScan {
 	}
 	s.cbSeg = sl
 	p2, jf, ok := fieldLoad(sl.Low)
+	if ok && p2 != ptr {
+		if st2, ok2 := s.fi.topRef(p2); ok2 && st2 == stack {
+			p2 = ptr
+		}
+	}
 	if !ok || p2 != ptr || jf == nf {
 		s.err = "callback segment's low bound is not the left boundary stored in the same stack item"
 		return s
@@ -863,9 +903,15 @@ func ruleSegScan(c *Ctx) {
 	okAll := true
 	detail := ""
 	var lcpLoad ssa.Value
-	for k, e := range nphi.Edges {
-		pred := nphi.Block().Preds[k]
-		cs := fi.edgeConds(pred, nphi.Block())
+	// every way into the merged value (the clamp may be a merge of its own, nested in the sentinel merge)
+	for _, lf := range mergeLeaves(nphi) {
+		e, pred := lf.V, lf.Pred
+		if pred == nil {
+			okAll = false
+			detail = "the incoming value is not a merge"
+			continue
+		}
+		cs := fi.edgeConds(pred, lf.Phi.Block())
 		h := func() map[string]bool { return map[string]bool{} }
 		if kc, isC := constInt(e); isC {
 			if kc < 0 && fi.proveLE0(llcp.sub(j), cs, nil, h(), 0) {
